@@ -14,9 +14,21 @@ From GP Require Export Replace.
 Record imp := { i_name : option N; i_path : N; i_base : N }.       (* a file's import spec *)
 Record pimp := { p_name : option N; p_path : N; p_base : N }.      (* an import clause of a pattern *)
 
+(* importKey: an import clause of the patch is identified by its path and its name in the patch
+   (a patch may list the same path more than once, under different names) *)
+Definition ikey : Type := (N * option N)%type.
+Definition ikey_eqb (a b : ikey) : bool :=
+  N.eqb (fst a) (fst b) &&
+  match snd a, snd b with Some x, Some y => N.eqb x y | None, None => true | _, _ => false end.
+Fixpoint assoc_ikey {A} (k : ikey) (l : list (ikey * A)) : option A :=
+  match l with
+  | [] => None
+  | (k', v) :: l' => if ikey_eqb k k' then Some v else assoc_ikey k l'
+  end.
+
 Record idata := {
-  id_bound : list (N * (N * bool));   (* path -> (package name recorded for it, bound through an unnamed import?) *)
-  id_matched : list (N * N)           (* MatchedImports (path, filepath.Base of it), in patch order *)
+  id_bound : list (ikey * (N * bool));       (* import clause -> (package name recorded for it, bound through an unnamed import?) *)
+  id_matched : list (N * (option N * N))     (* MatchedImports (path, (name in the patch, filepath.Base of the path)), in patch order *)
 }.
 
 Definition ident_val (name : N) : val :=
@@ -41,28 +53,28 @@ Section Change.
     match mk n with Some KIdent => true | _ => false end.
 
   (* ImportMatcher.matchSpec *)
-  Definition match_spec (p : pimp) (s : imp) (d : data) (b : list (N * (N * bool)))
-    : option (data * list (N * (N * bool))) :=
+  Definition match_spec (p : pimp) (s : imp) (d : data) (b : list (ikey * (N * bool)))
+    : option (data * list (ikey * (N * bool))) :=
     match p_name p, i_name s with
     | None, None => Some (d, b)
     | None, Some _ => None
     | Some pn, None =>
         if is_ident_mv pn then
           match match_import_name pn pn d with
-          | Some d' => Some (d', (p_path p, (pn, true)) :: b)
+          | Some d' => Some (d', ((p_path p, p_name p), (pn, true)) :: b)
           | None => None
           end
         else None
     | Some pn, Some sn =>
         match match_import_name pn sn d with
-        | Some d' => Some (d', (p_path p, (sn, false)) :: b)
+        | Some d' => Some (d', ((p_path p, p_name p), (sn, false)) :: b)
         | None => None
         end
     end.
 
   (* ImportMatcher.Match: any import of the path in the requested form *)
-  Fixpoint match_import (p : pimp) (specs : list imp) (d : data) (b : list (N * (N * bool)))
-    : option (data * list (N * (N * bool))) :=
+  Fixpoint match_import (p : pimp) (specs : list imp) (d : data) (b : list (ikey * (N * bool)))
+    : option (data * list (ikey * (N * bool))) :=
     match specs with
     | [] => None
     | s :: specs' =>
@@ -81,7 +93,7 @@ Section Change.
     | p :: ps' =>
         match match_import p specs d (id_bound id) with
         | Some (d', b') =>
-            match_imports ps' specs d' {| id_bound := b'; id_matched := id_matched id ++ [(p_path p, p_base p)] |}
+            match_imports ps' specs d' {| id_bound := b'; id_matched := id_matched id ++ [(p_path p, (p_name p, p_base p))] |}
         | None => None
         end
     end.
@@ -287,13 +299,13 @@ Definition add_plus_import (mk : N -> option mkind) (id : idata) (dinit : data)
   end.
 
 (* ImportsReplacer.Cleanup for one matched import *)
-Definition cleanup_import (id : idata) (new_names : list N) (tree : val) (imps : list imp) (pb : N * N) : list imp :=
+Definition cleanup_import (id : idata) (new_names : list N) (tree : val) (imps : list imp) (pb : N * (option N * N)) : list imp :=
   let path := fst pb in
   let '(pkgname, impname) :=
-    match assoc path (id_bound id) with
+    match assoc_ikey (path, fst (snd pb)) (id_bound id) with
     | Some (n, true) => (n, None)
     | Some (n, false) => (n, Some n)
-    | None => (snd pb, None)
+    | None => (snd (snd pb), None)
     end in
   if existsb (N.eqb pkgname) new_names || negb (uses_name (S (size tree)) pkgname tree)
   then del_import imps impname path
